@@ -380,7 +380,11 @@ func rtEngine(c *Ctx) {
 		cat := func(bs ...[]byte) []byte { return bytes.Join(bs, nil) }
 		f := func(n string, body []byte) Entry { return Entry{Name: n, Kind: 'f', Perms: 0644, Uid: 3, Gid: 4, Sec: 1e9, Content: body} }
 		sp := Fileset{{Name: "", Kind: 'd', Perms: 0755, Uid: 3, Gid: 4, Sec: 1e9}, f("data-then-0s", cat(rnd(4096), z(4096))), f("all-zero-8k", z(8192)), f("all-zero-4k", z(4096)),
-			f("zero-4097", z(4097)), f("hole-in-middle", cat(rnd(4096), z(8192), rnd(100))), f("zero-1m", z(1<<20)), f("tail-64k", cat(rnd(10), z(65536-10))), f("one-zero", z(1))}
+			f("zero-4097", z(4097)), f("hole-in-middle", cat(rnd(4096), z(8192), rnd(100))), f("zero-1m", z(1<<20)), f("tail-64k", cat(rnd(10), z(65536-10))), f("one-zero", z(1)),
+			// link targets up to the kernel's limit (PATH_MAX - 1)
+			{Name: "ln-255", Kind: 'L', Perms: 0777, Uid: 3, Gid: 4, Sec: 1e9, Link: strings.Repeat("a", 255)},
+			{Name: "ln-1025", Kind: 'L', Perms: 0777, Uid: 3, Gid: 4, Sec: 1e9, Link: strings.Repeat("b/", 512) + "c"},
+			{Name: "ln-4095", Kind: 'L', Perms: 0777, Uid: 3, Gid: 4, Sec: 1e9, Link: "/" + strings.Repeat("d", 4094)}}
 		for _, fm := range []string{"tar", "zip"} {
 			for _, m := range []string{"direct", "copy"} {
 				rtExec(c, fmt.Sprintf("rt %s ca %s %s", fm, m, filesetTok(sp)))
